@@ -52,6 +52,8 @@ def gen_case(rng: Rng, i: int, tier: str):
             st["points"] = sorted(r.sample(range(2, 120), r.randint(1, 3)))
         else:
             st["victim"] = r.randint(1, 4)
+        if tier == "thorough" and r.chance(0.5):
+            st["line_p"] = r.pick([0.005, 0.02, 0.1])  # line-level pre-emption inside py7zr frames
         scheds.append(st)
     return {"archive": arc, "damage": damage, "dseed": r.randrange(1 << 30), "scheds": scheds, "sink": r.wpick([(4, "factory"), (1, "path")]),
             "concurrent_sessions": r.wpick([(4, 0), (1, 2), (1, 3)]), "mp": r.chance(0.4)}
@@ -357,6 +359,11 @@ def run_case(case):
             res["sigs"].append(([digest_of(built.image)[:10], str(dmg_desc), digest_of(sig)[:12]], workers_interleaved))
             res["extra"]["context_switches"] = res["extra"].get("context_switches", 0) + sched.switches
             res["extra"]["scheduler_decisions"] = res["extra"].get("scheduler_decisions", 0) + len(sched.choices)
+            res["extra"]["line_preemptions"] = res["extra"].get("line_preemptions", 0) + len(sched.line_yields)
+            for v in res["violations"]:
+                if v.get("trace") is None and v["fp"].get("class", {}).get("variant") == "threads":
+                    # the explicit schedule of the failing run: replaying these decisions needs no PRNG
+                    v["trace"] = {"schedule_index": si, "sched": list(sched.choices), "line_yields": list(sched.line_yields)}
             for e in [t.error for t in sched.threads if t.error not in (None, "deadlock")]:
                 viol("uncaught_exception_in_worker", "threads", "a worker thread died with %r" % e, variant="threads")
         if case.get("concurrent_sessions") and not dmg_desc:
